@@ -44,23 +44,34 @@ func writerLayout(p *Program, fn *ssa.Function) ([]layoutElem, string, []string)
 			return
 		}
 		res := pr.Results[0]
-		if !(res.Op == "call" && res.Fn != nil && res.Fn.String() == "bytes.Join") {
-			bestRes = "result is " + prettyTerm(res)
-			return
-		}
-		sl := res.Args[0]
-		if sl.Op != "slice" || sl.Args[0].Op != "alloc" {
-			return
-		}
-		if sep, ok := stripConvTerm(res.Args[1]).StrVal(); !ok || sep != "" {
-			notes = append(notes, "the elements are joined with a non-empty separator")
-		}
 		recv := &Term{Op: "sym", Name: "p:" + fn.Params[0].Name(), Type: fn.Params[0].Type()}
 		elems := map[int64]*Term{}
-		for k, loc := range pr.State.heapLoc {
-			if loc.Op == "ia" && loc.Args[0].Key() == sl.Args[0].Key() {
-				if i, ok := loc.Args[1].IntVal(); ok {
-					elems[i] = pr.State.heap[k]
+		if base, parts, isChain := appendChain(res); isChain {
+			// append(append(make([]byte, 0, n), a...), b...): the parts in order
+			if !(base.IsNil() || (base.Op == "make" && len(base.Args) > 0 && isZeroInt(base.Args[0]))) {
+				bestRes = "result is appended onto " + prettyTerm(base)
+				return
+			}
+			for i, pt := range parts {
+				elems[int64(i)] = pt
+			}
+		} else {
+			if !(res.Op == "call" && res.Fn != nil && res.Fn.String() == "bytes.Join") {
+				bestRes = "result is " + prettyTerm(res)
+				return
+			}
+			sl := res.Args[0]
+			if sl.Op != "slice" || sl.Args[0].Op != "alloc" {
+				return
+			}
+			if sep, ok := stripConvTerm(res.Args[1]).StrVal(); !ok || sep != "" {
+				notes = append(notes, "the elements are joined with a non-empty separator")
+			}
+			for k, loc := range pr.State.heapLoc {
+				if loc.Op == "ia" && loc.Args[0].Key() == sl.Args[0].Key() {
+					if i, ok := loc.Args[1].IntVal(); ok {
+						elems[i] = pr.State.heap[k]
+					}
 				}
 			}
 		}
@@ -411,8 +422,11 @@ func ruleEncodedFresh(c *Ctx) {
 			switch {
 			case r.Op == "call" && r.Fn != nil && (r.Fn.String() == "bytes.Join" || r.Fn.String() == "bytes.Repeat"):
 				okFresh = true
-			case r.Op == "make" || r.Op == "append":
+			case r.Op == "make":
 				okFresh = true
+			case r.Op == "append":
+				base, _, _ := appendChain(r)
+				okFresh = base.IsNil() || base.Op == "make"
 			case r.Op == "call" && r.Fn != nil && r.Fn.String() == "(*bytes.Buffer).Bytes":
 				b := r.Args[0].strip()
 				okFresh = b.Op == "alloc" || (b.Op == "call" && b.Fn != nil && (b.Fn.String() == "bytes.NewBuffer" || b.Fn.String() == "bytes.NewBufferString"))
@@ -495,4 +509,25 @@ func ruleWriterWidths(c *Ctx) {
 		})
 	}
 	c.check(len(bad) == 0, "integer-widths", "cache/cache.go", "cache/cache.go", "uint32/uint64 writers and readers agree on width (4/8) and byte order (big endian)", strings.Join(uniq(bad), " || "), n)
+}
+
+// appendChain flattens append(append(base, a...), b...) into base and [a, b].
+func appendChain(t *Term) (*Term, []*Term, bool) {
+	if t == nil || t.Op != "append" {
+		return t, nil, false
+	}
+	parts := []*Term{}
+	for t.Op == "append" && len(t.Args) == 2 {
+		parts = append([]*Term{t.Args[1]}, parts...)
+		t = t.Args[0]
+	}
+	if t.Op == "append" {
+		return t, nil, false
+	}
+	return t, parts, true
+}
+
+func isZeroInt(t *Term) bool {
+	v, ok := t.IntVal()
+	return ok && v == 0
 }
